@@ -5,6 +5,9 @@ package main
 
 import (
 	"fmt"
+	"os"
+	"path/filepath"
+	"runtime"
 	"go/constant"
 	"go/token"
 	"go/types"
@@ -72,6 +75,7 @@ type Exec struct {
 	specErrs []string
 	pureMemo map[string]pureMemo
 	lastCallName string
+	reassuming bool
 	nscope int
 	prop string
 	callScope string
@@ -583,6 +587,18 @@ func (x *Exec) typeInvFacts(st *State, v *Term, t types.Type) {
 		}
 		return
 	}
+	if len(x.P.typeInvsOf(pt.Elem())) > 0 && !x.reassuming {
+		k := v.Key()
+		dup := false
+		for _, o := range st.invObjs {
+			if o.v.Key() == k {
+				dup = true
+			}
+		}
+		if !dup {
+			st.invObjs = append(st.invObjs, invObj{v, t})
+		}
+	}
 	for _, ti := range x.P.typeInvsOf(pt.Elem()) {
 		env := &Env{x: x, st: st, old: st, fn: x.fn, binds: map[string]specBinding{"self": {Val{T: v}, t}}, mode: "typeinv", pkg: x.P.pkgByPath(ti.Pkg)}
 		r := env.eval(ti.Clause.Expr)
@@ -639,7 +655,27 @@ func (x *Exec) allocFacts(st *State, v *Term, t types.Type) {
 }
 
 // havoc replaces heap arrays / ghosts named by keys with fresh versions.
+// reassumeInvs: type invariants talk about fields that are written only while an object is
+// under construction (static obligation typeinv-immutable), so they survive any havoc of the
+// heap for the objects already known on this path.
+func (x *Exec) reassumeInvs(st *State) {
+	if x.reassuming || len(st.invObjs) == 0 {
+		return
+	}
+	x.reassuming = true
+	for _, o := range st.invObjs {
+		x.typeInvFacts(st, o.v, o.t)
+	}
+	x.reassuming = false
+}
+
 func (x *Exec) havoc(st *State, keys map[string]bool) {
+	defer x.reassumeInvs(st)
+	if os.Getenv("GOWP_DEBUG") == "havoc" && (keys[ghBuf] || keys[modAll]) {
+		_, f1, l1, _ := runtime.Caller(1)
+		_, f2, l2, _ := runtime.Caller(2)
+		fmt.Fprintf(os.Stderr, "havoc %v from %s:%d <- %s:%d\n", sortedKeys(keys), filepath.Base(f1), l1, filepath.Base(f2), l2)
+	}
 	if keys[modAll] {
 		st.epoch++
 		// everything module-visible becomes unknown; keep "top" monotone
